@@ -90,10 +90,23 @@ func Random(r *mon.Rand, o GenOpts) *History {
 			}
 			y := r.Intn(100)
 			switch {
+			case y < 18:
+				// any type strictly between the two completing ranges
+				op.Type = uint16(r.Range(1300, 2099))
+				if op.Type == TypeEOE || op.Type == TypeProctitle {
+					op.Type = 1300
+				}
 			case y < 58:
 				op.Type = mon.Pick(r, nonCompleting)
 			case y < 76:
 				op.Type = mon.Pick(r, completing)
+			case y < 80:
+				// any type inside the completing ranges
+				if r.Bool() {
+					op.Type = uint16(r.Range(0, 1299))
+				} else {
+					op.Type = uint16(r.Range(2100, 65535))
+				}
 			default:
 				op.Type = TypeEOE
 			}
